@@ -49,6 +49,8 @@ def run(chk):
              "reassign that container")
     chk.rule("RECURSION", "every directly self-recursive library function (18): no container parameter by value (memory = depth x size); where the "
              "function uses a visited mark against cyclic data, every recursive call lies after the mark on every path")
+    chk.rule("DEST.sized", "every standard algorithm call that writes through an output iterator appends (back_inserter) or writes to begin() of a "
+             "local container constructed with the source range's own size()")
     chk.rule("T.comparator", "LocMinSorter, IntersectListSort, HorzSegSorter are strict weak orders")
     for cfg in cfgs:
         db = AstDB(cfg)
@@ -60,6 +62,7 @@ def run(chk):
         e9.rule_hot_guard(db, chk, cfg)
         e13.rule_links(db, chk, cfg)
         e9.rule_recursion(db, chk, cfg)
+        e9.rule_dest_sized(db, chk, cfg)
         e10.rule_iter_stable(db, chk, cfg, lambda cls: e2.E2(db, chk, cfg, cls))
         # dangling OutPt / Active pointers in the sweep engine: the vectors that hold raw pointers into the output rings and the AEL
         # (horz_seg_list_, horz_join_list_, intersect_nodes_) and the owning outrec_list_ are empty whenever a public method returns -
@@ -104,6 +107,7 @@ def run(chk):
     chk.floor("HOT.guard", 40 * n)
     chk.floor("LINK.consistent-at-throw", 60 * n)
     chk.floor("RECURSION", 14 * n)
+    chk.floor("DEST.sized", 8 * n)
     _controls(chk)
     chk.explanation = (
         "Clauses of C10 whose truth is visible in the code are decided for all inputs: non-emptiness guards (this is the rule that found "
